@@ -65,6 +65,11 @@ def collect_information(exprs):  # noqa: C901
     reset_information()
 
     for cmd in exprs:
+        if not cmd.is_leaf() and any(
+                c.is_leaf() and c.data[:1] == ';' for c in cmd):
+            # comments are kept as leaves, they are no part of the command
+            cmd = Node(*(c for c in cmd
+                         if not (c.is_leaf() and c.data[:1] == ';')))
         if not cmd.has_ident():
             continue
         name = cmd.get_ident()
